@@ -1110,13 +1110,12 @@ theorem isZero_iff {w : Nat} (x : List Nat) : isZero x = true ↔ U w x = 0 := b
       simp only [this, if_true, U_cons, Bool.false_eq_true, false_iff]
       omega
 
-/-- the model's `UI.checkedNeg` (projection of `overflowing_neg`) agrees with the Rust body
-    `if self.is_zero() { Some(self) } else { None }` -/
-theorem UI.checkedNeg_eq_isZero {w n : Nat} {a : List Nat} (hw : 1 ≤ w) (hn : 1 ≤ n)
-    (ha : WF w n a) : UI.checkedNeg w a = if isZero a then some a else none := by
+/-- the projection of `overflowing_neg` written with the `is_zero` test -/
+theorem UI.tupleToOption_overflowingNeg {w n : Nat} {a : List Nat} (hw : 1 ≤ w) (hn : 1 ≤ n)
+    (ha : WF w n a) :
+    tupleToOption (UI.overflowingNeg w a) = if isZero a then some a else none := by
   have h := UI.overflowingNeg_spec hw hn ha
   have hc := h.checked
-  unfold UI.checkedNeg
   by_cases hz : isZero a = true
   · rw [if_pos hz]
     have hu := (isZero_iff (w := w) a).1 hz
@@ -1131,6 +1130,26 @@ theorem UI.checkedNeg_eq_isZero {w n : Nat} {a : List Nat} (hw : 1 ≤ w) (hn : 
     have hu : U w a ≠ 0 := fun h => hz ((isZero_iff (w := w) a).2 h)
     exact hc.1.2 (by unfold repU; omega)
 
+/-- `BUint::checked_neg` is written `if self.is_zero() { Some(self) } else { None }` (and modelled
+    so); it is nevertheless the projection of `overflowing_neg` -/
+theorem UI.checkedNeg_eq_proj {w n : Nat} {a : List Nat} (hw : 1 ≤ w) (hn : 1 ≤ n)
+    (ha : WF w n a) : UI.checkedNeg w a = tupleToOption (UI.overflowingNeg w a) := by
+  rw [UI.tupleToOption_overflowingNeg hw hn ha]; rfl
+
+/-- (kept for compatibility; true by definition since the model mirrors the Rust body) -/
+theorem UI.checkedNeg_eq_isZero {w n : Nat} {a : List Nat} (_hw : 1 ≤ w) (_hn : 1 ≤ n)
+    (_ha : WF w n a) : UI.checkedNeg w a = if isZero a then some a else none := rfl
+
+theorem UI.checkedNeg_spec {w n : Nat} {a : List Nat} (hw : 1 ≤ w) (hn : 1 ≤ n) (ha : WF w n a) :
+    (UI.checkedNeg w a = none ↔ ¬ repU (M w n) (-(U w a : Int))) ∧
+    (∀ r, UI.checkedNeg w a = some r → WF w n r ∧ (U w r : Int) = -(U w a : Int)) := by
+  rw [UI.checkedNeg_eq_proj hw hn ha]; exact (UI.overflowingNeg_spec hw hn ha).checked
+
+theorem UI.strictNeg_spec {w n : Nat} {a : List Nat} (hw : 1 ≤ w) (hn : 1 ≤ n) (ha : WF w n a) :
+    (UI.strictNeg w a = Outcome.panic ↔ ¬ repU (M w n) (-(U w a : Int))) ∧
+    (∀ r, UI.strictNeg w a = Outcome.ok r → WF w n r ∧ (U w r : Int) = -(U w a : Int)) := by
+  unfold UI.strictNeg
+  rw [UI.checkedNeg_eq_proj hw hn ha]; exact (UI.overflowingNeg_spec hw hn ha).strict
 
 /-! ### side of a signed add / sub overflow -/
 namespace II
